@@ -27,7 +27,7 @@ ASSUMPTIONS = [
     "tolerance 1e-9 relative to max(1, |value|, mean^2)",
 ]
 
-OBS = ["Z", "Zabs", "X", "Y", "NN", "NNp", "SWAP", "2Z+X", "Z-0.5", "negZ", "user", "const", "view", "view+Z", "1e7+Z"]
+OBS = ["Z", "Zabs", "X", "Y", "NN", "NNp", "SWAP", "2Z+X", "Z-0.5", "negZ", "user", "const", "view", "view+Z", "1e7+Z", "1e-17Z", "3e-21X", "1e12Z"]
 
 
 def generate(seed, tier):
@@ -60,7 +60,7 @@ def generate(seed, tier):
                 c = min(c, left)
                 chunks.append(c)
                 left -= c
-            ops.append({"op": "merge", "dseed": P.s64(r), "chunks": chunks, "kind": r.choice(["normal", "const", "binary", "large_offset"]), "tree": r.random() < 0.3})
+            ops.append({"op": "merge", "dseed": P.s64(r), "chunks": chunks, "kind": r.choice(["normal", "const", "binary", "large_offset", "tiny"]), "tree": r.random() < 0.3})
             continue
         if m > 0.97:
             # a single block of samples fed to the block statistics directly (any size, incl. large ones)
@@ -97,7 +97,7 @@ def generate(seed, tier):
         cheap = ns >= 1000
         if ns >= 100000:
             op["burn_in"], op["steps"] = r.choice([0, 1]), r.choice([0, 1])
-        pool = ["Z", "Zabs", "NN", "user", "const", "Z-0.5", "negZ", "view", "1e7+Z"] if cheap else OBS
+        pool = ["Z", "Zabs", "NN", "user", "const", "Z-0.5", "negZ", "view", "1e7+Z", "1e-17Z", "1e12Z"] if cheap else OBS
         if ns >= 100000:
             pool = ["Z", "const", "view"]
         if op["op"] == "sys_stats":
@@ -132,6 +132,12 @@ def make_obs(name, nv, counter):
         return SigmaZ() - 0.5
     if name == "negZ":
         return -SigmaZ()
+    if name == "1e-17Z":
+        return 1e-17 * SigmaZ()  # a quantity in small units
+    if name == "3e-21X":
+        return SigmaX() * 3e-21
+    if name == "1e12Z":
+        return 1e12 * SigmaZ()
     if name == "1e7+Z":
         return 1e7 + SigmaZ()  # an estimator sitting on a large constant
     if name in ("view", "view+Z"):
@@ -195,17 +201,20 @@ def execute(plan):
 
     def cmp_stats(got, x, what, **detail):
         mean, var, se, n = ref_stats(x)
-        # what a numerically stable merge achieves: relative 1e-9 on the variance plus the rounding of
-        # block means of magnitude |mean| (eps * |mean| * spread); NOT mean^2-scaled, so that an estimator
-        # on a large constant offset is still judged sharply
+        # what a numerically stable merge achieves, in the UNITS OF THE DATA (an observable of magnitude 1e-17 is
+        # judged as sharply as one of magnitude 1): relative 1e-9 on mean and variance, plus the rounding of block
+        # means of magnitude |mean| (eps * |mean| * spread); not mean^2-scaled, so that an estimator on a large
+        # constant offset is still judged sharply
+        amp = float(np.max(np.abs(x))) if len(x) else 0.0
         v0 = abs(var) if var == var else 0.0
-        scale = max(1.0, v0) + 1e-4 * abs(mean) * max(1.0, math.sqrt(v0))
+        scale = v0 + 1e-4 * abs(mean) * math.sqrt(v0) + 1e-17 * amp * amp
+        mean_tol = 1e-9 * amp
         ok = True
         if got.get("num_samples") != n:
             run.violate("13-count", f"{what}: reported num_samples {got.get('num_samples')}, {n} samples were drawn", **detail)
             ok = False
         gm, gv, gs = float(got["mean"]), float(got["variance"]), float(got["std_error"])
-        if not close(gm, mean, 1e-9):
+        if (gm != gm) != (mean != mean) or (mean == mean and abs(gm - mean) > mean_tol):
             run.violate("13-mean", f"{what}: mean {gm!r}, one-pass mean of the drawn samples {mean!r}", **detail)
             ok = False
         if (gv != gv) != (var != var) or (var == var and abs(gv - var) > 1e-9 * scale):
@@ -246,6 +255,8 @@ def execute(plan):
                     data = np.full(n, 0.75)
                 elif op["kind"] == "binary":
                     data = g.integers(0, 2, n).astype(float) * 2 - 1
+                elif op["kind"] == "tiny":
+                    data = 1e-17 * g.standard_normal(n)
                 else:
                     data = 1e6 + g.standard_normal(n)
                 parts = []
@@ -282,10 +293,11 @@ def execute(plan):
                 got = {"mean": mean, "variance": var, "std_error": float(np.sqrt(var / ln)) if ln else float("nan"), "num_samples": ln}
                 sc = 1e12 if op["kind"] == "large_offset" else 1.0
                 rm, rv, rs, rn = ref_stats(data)
-                ok = rn == ln and close(mean, rm, 1e-9)
+                amp = float(np.max(np.abs(data))) if n else 0.0
+                ok = rn == ln and abs(mean - rm) <= 1e-9 * amp
                 if not ok:
                     run.violate("13-merge", f"merge of chunks {op['chunks']}: mean/count ({mean!r},{ln}) vs one-pass ({rm!r},{rn})", chunks=op["chunks"])
-                elif (var != var) != (rv != rv) or (rv == rv and abs(var - rv) > 1e-9 * (max(1.0, abs(rv)) + 1e-4 * abs(rm) * max(1.0, math.sqrt(abs(rv))))):
+                elif (var != var) != (rv != rv) or (rv == rv and abs(var - rv) > 1e-9 * (abs(rv) + 1e-4 * abs(rm) * math.sqrt(abs(rv)) + 1e-17 * amp * amp)):
                     run.violate("13-merge", f"merge of chunks {op['chunks']}: variance {var!r} vs one-pass {rv!r}", chunks=op["chunks"], min_chunk=min(op["chunks"]))
                 if len(op["chunks"]) >= 3:
                     big_ops += 1
@@ -350,10 +362,16 @@ def execute(plan):
             for nm in op["obs"]:
                 # the same observable objects are reused by later operations of the run
                 ob = obs_cache.get(nm) or obs_cache.setdefault(nm, make_obs(nm, nv, counter))
-                if ob.name in [o.name for o in obs]:
-                    continue  # a System keys observables by name; duplicate names are documented to conflict
                 names.append(nm)
                 obs.append(ob)
+            # a System keys observables by name: of two observables with the same name the LATER one is tracked
+            # (documented), and it must report exactly what it would report alone
+            keep = {}
+            for nm, ob in zip(names, obs):
+                keep[ob.name] = (nm, ob)
+            sys_obs = list(obs)
+            names = [v_[0] for v_ in keep.values()]
+            obs = [v_[1] for v_ in keep.values()]
             init = None
             init_copy = None
             if "init_rows" in op:
@@ -377,7 +395,7 @@ def execute(plan):
                     if op["op"] == "sys_stats":
                         from qucumber.observables import System
 
-                        system = sys_cache.get(tuple(names)) or sys_cache.setdefault(tuple(names), System(*obs))
+                        system = sys_cache.get(tuple(op["obs"])) or sys_cache.setdefault(tuple(op["obs"]), System(*sys_obs))
                         res = system.statistics(state, **kwargs)
                     else:
                         if op.get("positional"):
